@@ -23,16 +23,18 @@ PV_FIELDS = ("xpos,xquat,xmat,xipos,ximat,xanchor,xaxis,geom_xpos,geom_xmat,site
              "ten_J,ten_length,ten_wrapadr,ten_wrapnum,wrap_obj,wrap_xpos,actuator_length,actuator_moment,crb,M,qLD,qLDiagInv,"
              "ncon,contact,ne,nf,nl,nefc,efc_type,efc_id,efc_pos,efc_margin,efc_frictionloss,efc_D,efc_R,efc_KBIP,"
              "efc_J,efc_vel,efc_aref,ten_velocity,actuator_velocity,cvel,cdof_dot,qfrc_bias,qfrc_spring,qfrc_damper,"
-             "qfrc_gravcomp,qfrc_fluid,qfrc_passive,energy")
+             "qfrc_gravcomp,qfrc_fluid,qfrc_passive,energy,subtree_linvel,subtree_angmom,sens1,sens2")
 # acceleration stage array that forward, step, step2 AND inverse all write
 ACC_FIELDS = "qfrc_constraint"
 # arena arrays reallocated by the position stage and filled by the acceleration stage
 EFC_FIELDS = "efc_force,efc_state"
-# written by forward / step / step2 only (qacc is an input of inverse dynamics)
-QACC_FIELDS = "qacc,qacc_smooth,qfrc_smooth,qfrc_actuator,actuator_force,act_dot"
+# qacc is an output of forward / step / step2 and an input of inverse dynamics (the caller may write it)
+QACC_FIELDS = "qacc"
+# written together with qacc by forward / step / step2 only
+SM_FIELDS = "qacc_smooth,qfrc_smooth,qfrc_actuator,actuator_force,act_dot"
 INV_FIELDS = "qfrc_inverse"
 SENS_FIELDS = "sensordata"
-CLASS_FIELDS = dict(GROUP_FIELDS, pv=PV_FIELDS, acc=ACC_FIELDS, qacc=QACC_FIELDS, inv=INV_FIELDS, sens=SENS_FIELDS, efc=EFC_FIELDS)
+CLASS_FIELDS = dict(GROUP_FIELDS, pv=PV_FIELDS, acc=ACC_FIELDS, qacc=QACC_FIELDS, sm=SM_FIELDS, inv=INV_FIELDS, sens=SENS_FIELDS, efc=EFC_FIELDS)
 ALL_IST = ",".join(GROUP_FIELDS[g] for g in ("time", "qp", "hist", "plug", "warm", "ctrl", "app", "aux"))
 
 SIG_BITS = {"time": 1, "qp": 2 | 4 | 8, "hist": 16, "plug": 1 << 13, "warm": 32, "ctrl": 64, "app": 128 | 256,
